@@ -165,8 +165,11 @@ class C04(Check):
         "after conversion the theorem holds outside K = histories importing a secret taproot script (deletePrivateKeys has no case for "
         "adtTaprootScript on this tree: the sealed script row stays; the accessor refuses) - witness C04_watch_only_residue_at_K",
     ]
-    EXTRA_TRUSTED = ["coq/Generated/TaintSites.v regenerated by lib/extract_c04.py (regex over waddrmgr/db.go deletePrivateKeys and "
-                     "manager.go Unlock; raises on unknown shapes)"]
+    EXTRA_TRUSTED = ["coq/Generated/TaintSites.v regenerated by lib/extract_c04.py: source-shape reader over waddrmgr/db.go "
+                     "deletePrivateKeys (switch or equivalent if/else-if chain) and manager.go Unlock; when the shape is not "
+                     "recognised the two facts are determined by running their witness scenarios on the built code "
+                     "(harness/cmd/c04 -probe); evidence field facts_source says which path ran; both facts are in any case "
+                     "re-confirmed by the row comparison of every run"]
 
     def nontrivial(self, c):
         return "has_addresses" in (c.get("tags") or [])
@@ -263,12 +266,24 @@ Print bad.
                 problems.append("independent address derivation disagrees with the manager, case %d" % i)
         return mism, logs, problems
 
+    def facts_source(self):
+        try:
+            txt = open(os.path.join(COQ, "Generated", "TaintSites.v")).read()
+            m = re.search(r"\(\* facts source: (.*?) \*\)", txt, re.S)
+            line = re.sub(r"\s+", " ", m.group(1)) if m else "unknown"
+            flags = dict(re.findall(r"Definition (wo_strips_taproot|unlock_decrypts_script_key) : bool := (\w+)\.", txt))
+            return line.split(" ", 1)[0], line, flags
+        except OSError as e:
+            return "unknown", str(e), {}
+
     def extra_coverage(self, cases):
         commits = sum(1 for c in cases for o in c["obs"] if o.get("ok") and o.get("commits"))
         scans = sum(1 for c in cases for o in c["obs"] if o.get("ok"))
         needles = max([o.get("needles", 0) for c in cases for o in c["obs"]] + [0])
         conv = [c for c in cases if "converted" in (c.get("tags") or [])]
+        src, detail, flags = self.facts_source()
         return dict(
+            facts_source=src, facts_source_detail=detail, regenerated_facts=flags,
             committed_transactions_scanned=commits, images_scanned=scans, max_needles=needles,
             histories_with_conversion=len(conv),
             api_checked_after_reopen=sum(1 for c in cases if "api_checked" in (c.get("tags") or [])),
